@@ -396,6 +396,13 @@ def compare(kind: str, table: pd.DataFrame, inner, expected: list, var: pd.DataF
                     return out
         return out
     if k == "scan_steady_state":
+        # rows come back in the order of the input rows: outer row by outer row, the inner table's rows in their order
+        # (the inner values are not ascending, and the outer labels often are not)
+        want_order = [(str(label), float(v)) for label in table.index for v in inner.iloc[:, 0]]
+        for nm, fr in (("variables", var), ("fluxes", flx)):
+            got_order = [(str(a), float(b)) for a, b in fr.index]
+            if got_order != want_order:
+                return [{"what": f"scan result order / labels differ from the input rows ({nm} of the nested scan)", "got": [str(x) for x in got_order[:8]], "expected": [str(x) for x in want_order[:8]]}]
         for i, (label, per) in enumerate(zip(table.index, expected)):
             for j, e in enumerate(per):
                 if e is None:
